@@ -427,7 +427,15 @@ def filter_mc_sharemem(filename, step_size, box_size, cores, shape,
             method = 'fork'
         ctx = multiprocessing.get_context(method)
         barrier = ctx.Barrier(parties=len(ymaxs))
-        pool = ctx.Pool(processes=cores, maxtasksperchild=1,
+        # every stripe waits for all the others at the barrier, so all of
+        # them have to be running at the same time: the pool needs (at least)
+        # one process per stripe, however many stripes the layout realised
+        nproc = max(cores, len(ymaxs))
+        if nproc > cores:
+            logging.warning(
+                "{0} stripes on {1} cores: using {0} processes".format(
+                    nproc, cores))
+        pool = ctx.Pool(processes=nproc, maxtasksperchild=1,
                         initializer=init, initargs=(barrier, memory_id))
         try:
             # chunksize=1 ensures that we only send a single task to each
